@@ -58,11 +58,43 @@ impl Parse for Expr {
                     ]),
                     punct(','),
                 )(*c)
-                .map(|(stream, cursor)| (Self::Other(stream), cursor))
+                .map(|(stream, cursor)| {
+                    (Self::Other(parenthesize_invisible_groups(stream)), cursor)
+                })
                 .ok_or_else(|| syn::Error::new(c.span(), "failed to parse expression"))
             })
         }
     }
+}
+
+/// Turns the invisible groups holding an expression with operators (how `macro_rules!` passes
+/// an `$e:expr` fragment on) into parenthesized ones.
+///
+/// The compiler ignores an invisible group coming back from a proc macro, so `2 * $e` handed on
+/// for `$e = x + 1` would be read as `2 * x + 1`.
+fn parenthesize_invisible_groups(stream: TokenStream) -> TokenStream {
+    use proc_macro2::{Delimiter, Group, TokenTree};
+
+    stream
+        .into_iter()
+        .map(|tt| match tt {
+            TokenTree::Group(g) => {
+                let delimiter = if g.delimiter() == Delimiter::None
+                    && g.stream().into_iter().nth(1).is_some()
+                    && syn::parse2::<syn::Path>(g.stream()).is_err()
+                {
+                    Delimiter::Parenthesis
+                } else {
+                    g.delimiter()
+                };
+                let mut group =
+                    Group::new(delimiter, parenthesize_invisible_groups(g.stream()));
+                group.set_span(g.span());
+                TokenTree::Group(group)
+            }
+            tt => tt,
+        })
+        .collect()
 }
 
 impl PartialEq<syn::Ident> for Expr {
